@@ -195,7 +195,9 @@ CLAIMED.update({
               "Tie: for every node of every generated program Coq checks pchunks = the chunks dask_array advertises (the real .chunks of "
               "every node are the oracle table, checked well-formed in Coq); every advertised key of generated + directed + API-surface "
               "programs is executed and each block's shape/dtype compared with .chunks/.dtype. fam_dtype_rules: a dtype list x every percentile / quantile / nanquantile method x the reductions and ufuncs whose advertised dtype is a rule, and expand_dims with axis tuples in every order: blocks executed vs .chunks / .dtype.",
-              "21/C03", _TB + "take, reshape, implicit rechunk specs and repeat > 3 are outside pchunks (checked by execution only); the unified "
+              "21/C03", _TB + "take, reshape, implicit rechunk specs and repeat > 3 are outside pchunks (checked by execution only); nested "
+              "concatenation-like nodes over arrays WITHOUT elements are outside the tie (the implementation's all-parts-empty path drops "
+              "zero-size chunks on the other axes, the model's concatenate rule keeps them: counted, blocks still executed); the unified "
               "layout is an oracle here (its decision layer is C17's model).", "Coq advertised-chunks rule for all programs + per-node tie + block-by-block execution check"),
     "C05": _c("Coq (coq/Properties/C05.v, 17 obligations): a model of FromGraph's key location (expected key / own key / unique covering "
               "name / error) never maps a block to another block; persist rebuild keeps name/chunks/dtype; RootAlias pins (raw, b) to "
